@@ -3,6 +3,18 @@
 import json
 
 CLAIMS = {
+ "C11": dict(cat="model_checking", design="6 C11",
+  text="45 call templates of the 15 field-manipulating builtins x 5 key spellings x 6 subject situations (variable / field / tag / variable shadowing either / absent) x 13 subject values x 3 base points are run on the real engine and on reference builtins; the WHOLE canonical final point (so every other key is checked untouched), captured standard output, return values and read-backs and the error flag must agree. Complete product, about 39000 executions.",
+  note="strings, regexp, net/url, fmt, encoding/json and spf13/cast are shared trusted base. Unspecified cells (cast of collections or non-numeric strings, rename onto an existing key, ...) are skipped and counted.",
+  tech="bounded-exhaustive enumeration of builtin call shapes x subject situations x values on the real engine vs reference builtins"),
+ "C12": dict(cat="model_checking", design="6 C12",
+  text="Every placement of up to 3 add_pattern definitions and a grok use over the 8 slots of a 3-level block skeleton (45000 programs: load verdict and captures), 14 patterns x trim_space x situations x values, default_time over all documented layouts and 21 zone arguments, datetime over formats x precisions x epochs, xml over documents x XPath queries x destination spellings, sql_cover over SQL-like strings; final point incl. time, grok's return value and the load verdict are compared with a reference that calls the same third-party engines directly but implements scoping, typing, destinations and failure handling itself.",
+  note="The engines (grok, xmlquery, dateparse, time, obfuscate) are trusted. Zone labels are checked against fixed offsets only where the zone has no DST ambiguity at the test date.",
+  tech="bounded-exhaustive enumeration of pattern placements / inputs on the real engine vs reference plumbing around trusted engines"),
+ "C20": dict(cat="model_checking", design="6 C20",
+  text="Every script of <=2 (thorough <=3) statements over 16 statement kinds x 5 inputs x {workspace, single file} x {json, lineprotocol} x {run, check-only} is executed through the real binary built from the current tree; stdout is parsed back and compared field by field with the same script and input run through the library API; errors must be reported without an output block. Quick: every script with a rotating 1/13 of the grid (about 630 invocations); thorough: the full grid.",
+  note="The influx line-protocol codec is trusted. Text input's default measurement name is pinned; wall-clock times are accepted within the invocation bracket.",
+  tech="bounded-exhaustive enumeration of scripts x inputs x configurations through the real CLI binary vs the library API"),
  "C10": dict(cat="model_checking", design="6 C10",
   text="Explicit-state breadth-first search over real input.Point values (including the private key index): 4 initial points x 113 builtin events (add, overwrite with 7 value kinds, move to tag, drop, rename over all ordered key pairs, cast, delete-on-set-measurement, default_time, grok captures) to depth 3 (quick) / 4 (thorough) with de-duplication, every transition executed by the real engine on a deep clone; in every one of ~134000 distinct states five invariants are evaluated (read-back of every output key through Point.Get and a script, tag/field exclusivity, field types, no phantom reads, droppable/renamable look-ahead) and the state is compared with a reference point model.",
   note="De-duplication is per worker below level 1. The reference stops tracking after an unspecified cell (rename onto an existing key); the invariants are still checked there.",
